@@ -351,12 +351,29 @@ ds["mesh"] = osyris.Datagroup({"density": osyris.Array([1.0, 2.0], unit="g/cm**3
 osyris.config.additional_variables(ds)
 out["mass_computed"] = "mass" in ds["mesh"]
 out["user_addvar_called"] = bool(ds.meta.get("user_additional_variables_called", False))
+out["stale_called"] = bool(ds.meta.get("stale_copy_called", False))
 out["user_file"] = os.path.realpath(cfg.user_config.__file__)
 print("PROBE" + json.dumps(out))
 '''
 
 
-def config_case(subset):
+STALE_COPY = '''
+# an older copy of the configuration kept next to the real one: it is not the user configuration and must be ignored
+def configure_constants(units):
+    units.define("solar_mass = 3.0e+33 * g = M_sun = M_sol")
+
+
+def configure_units(units, unit_d, unit_l, unit_t):
+    return {"density": 99.0 * units("g / cm**3")}
+
+
+def additional_variables(data):
+    data.meta["stale_copy_called"] = True
+'''
+SURROUNDINGS = ["plain", "stale-copies-in-config-dir", "look-alike-in-cwd"]
+
+
+def config_case(subset, surroundings="plain"):
     """Run osyris in a fresh process whose ~/.osyris/config_osyris.py defines exactly `subset`."""
     home = scratch_dir()
     os.makedirs(os.path.join(home, ".osyris"))
@@ -364,8 +381,18 @@ def config_case(subset):
         f.write("# user configuration written by the C08 check\n")
         for name in subset:
             f.write(USER_OBJECTS[name])
+    cwd = scratch_dir()
+    if surroundings == "stale-copies-in-config-dir":
+        for fn in ("config_osyris_old.py", "config_osyris2.py", "config_osyris_backup.py", "config_osyris.py.bak", "zz_config_osyris.py"):
+            with open(os.path.join(home, ".osyris", fn), "w") as f:
+                f.write(STALE_COPY)
+    elif surroundings == "look-alike-in-cwd":
+        # files in the working directory that are not the user configuration either
+        for fn in ("config_osyris_old.py", "defaults.py", "units.py"):
+            with open(os.path.join(cwd, fn), "w") as f:
+                f.write(STALE_COPY)
     env = dict(os.environ, HOME=home)
-    p = subprocess.run([sys.executable, "-c", PROBE, os.path.join(repo_root(), "src")], env=env, capture_output=True, text=True, timeout=300)
+    p = subprocess.run([sys.executable, "-c", PROBE, os.path.join(repo_root(), "src")], env=env, cwd=cwd, capture_output=True, text=True, timeout=300)
     line = [l for l in p.stdout.splitlines() if l.startswith("PROBE")]
     if not line:
         return None, (p.stdout + p.stderr)[-600:]
@@ -375,10 +402,10 @@ def config_case(subset):
 def config_work(payload):
     acc = Acc()
     names = list(USER_OBJECTS)
-    subsets = [tuple(n for i, n in enumerate(names) if mask >> i & 1) for mask in range(8)]
-    for idx, subset in my_share(subsets, payload):
-        c = {"block": "config", "user_defines": list(subset)}
-        out, err = config_case(subset)
+    subsets = [(tuple(n for i, n in enumerate(names) if mask >> i & 1), sur) for mask in range(8) for sur in SURROUNDINGS]
+    for idx, (subset, sur) in my_share(subsets, payload):
+        c = {"block": "config", "user_defines": list(subset), "surroundings": sur}
+        out, err = config_case(subset, sur)
         acc.case(nontrivial=len(subset) > 0, outcome="ok" if out else "error")
         if out is None:
             acc.violation("C08:config-subset-import-failed", idx, c, {"output": err})
@@ -396,6 +423,8 @@ def config_work(payload):
         else:
             if out["lib_density"] != 2.0 or out["lib_has_marker"] or not out["lib_has_velocity"]:
                 problems.append("default-configure_units-not-used")
+        if out.get("stale_called"):
+            problems.append("stale-copy-used")
         if "additional_variables" in subset:
             if not out["user_addvar_called"] or out["mass_computed"]:
                 problems.append("user-additional_variables-not-used")
@@ -421,7 +450,7 @@ def work(payload):
 
 
 def run(ctx):
-    acc = Acc.merged(ctx.pool.shards(MOD, "work", ctx.base()) + ctx.pool.shards(MOD, "config_work", ctx.base(), nshards=8))
+    acc = Acc.merged(ctx.pool.shards(MOD, "work", ctx.base()) + ctx.pool.shards(MOD, "config_work", ctx.base(), nshards=24))
     cov = {
         "evaluations": acc.evaluations,
         "distinct_nontrivial": acc.nontrivial,
@@ -446,7 +475,7 @@ def replay_sigs(case):
         names = list(USER_OBJECTS)
         subset = tuple(case["user_defines"])
         mask = sum(1 << names.index(n) for n in subset)
-        res = config_work({"shard": mask, "nshards": 8, "tier": "quick"})
+        res = config_work({"shard": mask * len(SURROUNDINGS) + SURROUNDINGS.index(case.get("surroundings", "plain")), "nshards": 8 * len(SURROUNDINGS), "tier": "quick"})
         return list(res.violations.keys())
     run_case(acc, 0, case)
     return list(acc.violations.keys())
